@@ -404,16 +404,22 @@ func resolveUnionBatch(ctx context.Context, sources []interface{}, typ *Union, s
 	var workUnits []*WorkUnit
 	for srcType, sources := range sourcesByType {
 		gqlType := typ.Types[srcType]
+		// Resolve all fragments that apply to this member type (and the union's own
+		// __typename selections) as one selection set, so that their directives are
+		// honored and several fragments on one member merge instead of overwriting
+		// each other.
+		merged := &SelectionSet{Selections: selectionSet.Selections}
 		for _, fragment := range selectionSet.Fragments {
 			if fragment.On != srcType {
 				continue
 			}
-			units, err := resolveObjectBatch(ctx, sources, gqlType, fragment.SelectionSet, destinationsByType[srcType])
-			if err != nil {
-				return nil, err
-			}
-			workUnits = append(workUnits, units...)
+			merged.Fragments = append(merged.Fragments, fragment)
 		}
+		units, err := resolveObjectBatch(ctx, sources, gqlType, merged, destinationsByType[srcType])
+		if err != nil {
+			return nil, err
+		}
+		workUnits = append(workUnits, units...)
 
 	}
 	return workUnits, nil
